@@ -31,10 +31,12 @@ theorem c16_cli_unsown_raises (fails : CliEff → Bool) (ray gpusNone : Bool) :
   simp only [cliSk, Gen.Default.cliSk]
   cases ray <;> cases gpusNone <;> grind [isGrow]
 
-theorem c16_cli_unsown_error (ray gpusNone : Bool) :
-    (cliSk (fun _ => false) ray gpusNone false []).2 = some .xyzError := by
+/-- on an unsown crop, when nothing fails on its own, the command stops right after asking `is_prepared()` -/
+theorem c16_cli_unsown_trace (gpusNone : Bool) :
+    (cliSk (fun _ => false) false gpusNone false []).1 = [.parseArgs, .mkCrop true true, .isPrepared] ∧
+    (cliSk (fun _ => false) false gpusNone false []).2.isSome = true := by
   simp only [cliSk, Gen.Default.cliSk]
-  cases ray <;> cases gpusNone <;> simp
+  cases gpusNone <;> simp
 
 theorem c16_cli_grow_guarded (fails : CliEff → Bool) (ray gpusNone prepared : Bool) (e : CliEff)
     (he : e ∈ (cliSk fails ray gpusNone prepared []).1) (hg : isGrow e = true) :
